@@ -88,6 +88,9 @@ func propC02(c *Ctx, r *Report) {
 	r.Clauses = append(r.Clauses, "storage-class-aware pointee types (E23): where the storage class of a pointer is taken from the accessed expression (not known statically), the pointee type id handed to the pointer-type constructor was computed by a call that receives the same storage class (layout-free types for Workgroup, decorated ones elsewhere)")
 	c.runStorageClassAware(r, "ptrtype.scaware")
 	r.floor("ptrtype.scaware", 3)
+	r.Clauses = append(r.Clauses, "width-named capabilities (E18): in a switch over a scalar bit width the capability constants named in the arm for width N carry N in their name (Float16 / Int16 / ...16BitAccess for 16, Float64 / Int64 for 64, Int8 for 8)")
+	c.runWidthSuffix(r, "width.suffix", "spirv", "Capability")
+	r.floor("width.suffix", 6)
 	r.Clauses = append(r.Clauses, "version bump (E23): every call that raises the module's SPIR-V version to 1.4 or later sits in a function that also updates the options' Version field, which selects the 1.4 OpEntryPoint interface rule")
 	c.runVersionBump(r, "version.bump14")
 	r.floor("version.bump14", 1)
